@@ -463,46 +463,109 @@ def x10_x12_p2(ctx, tab, sites, pp):
     r12.exactly('include_arm', len(inc), 1)
     if inc:
         arm = inc[0]
-        fors = [n for n in sx.walk(arm.body) if n.get('k') == 'for']
-        r12.exactly('search_loop', len(fors), 1)
-        if len(fors) == 1:
+        # the search: a loop over the include paths, in the arm itself or in a private helper the arm hands `include_paths` to
+        host_body, host_name, pathv, ipv = arm.body, loopf, 'path', 'include_paths'
+        fors = [n for n in sx.walk(arm.body) if n.get('k') == 'for' and 'include_path' in sq(n['e'])]
+        if not fors:
+            for n in sx.walk(arm.body):
+                if sx.is_call(n) and n['f']['p'] in pp.fns and n['f']['p'] != loopf and any(sq(sx.strip_ref(a_)) == 'include_paths' for a_ in n['args']):
+                    h = pp.fns[n['f']['p']]
+                    hps = [sx.pat_idents(q['pat'])[0] for q in h['sig']['params'] if q.get('k') == 'typed']
+                    if len(hps) != len(n['args']):
+                        continue
+                    amap = {sq(sx.strip_ref(a_)): p_ for a_, p_ in zip(n['args'], hps)}
+                    hf = [m for m in sx.walk(h['body']) if m.get('k') == 'for' and amap.get('include_paths', '\0') in sq(m['e'])]
+                    if hf:
+                        fors, host_body, host_name = hf, h['body'], h['name']
+                        ipv = amap['include_paths']
+                        pathv = amap.get('path', amap.get('&path', 'path'))
+                        break
+        r12.inst('search_loop', {'host': host_name, 'loops': len(fors)})
+        if len(fors) != 1:
+            r12.undecided('%s:search-loop' % PP, pp.where(arm.line), 'no single loop over the include paths found in the `include handler or in a helper it calls (%d candidates)' % len(fors))
+        else:
             lp = fors[0]
             it = sq(lp['e'])
             r12.inst('iteration', {'over': it})
-            if it not in ('include_paths', 'include_paths.iter()', '&include_paths'):
+            if '.rev()' in it:
                 r12.fail('%s:search-order' % PP, pp.where(lp.get('l')), 'include paths must be tried in the given order; the loop iterates `%s`' % it)
-            # enclosing condition
-            encl = None
-            for n in sx.walk(arm.body):
-                if n.get('k') == 'if' and any(x is lp for x in sx.walk(n['t'])):
-                    encl = n
-            c = sq(encl['c']) if encl else None
-            r12.inst('precondition', {'condition': c})
-            if c not in ('(path.is_relative()&&!path.exists())', '(!path.exists()&&path.is_relative())'):
-                r12.fail('%s:search-precondition' % PP, pp.where(lp.get('l')),
-                         'the include paths are consulted only for a relative path that does not exist as given; found condition %s' % c)
-            # body: candidate = include_path.join(path); if candidate.exists() { path = candidate; break }
+            elif it not in (ipv, ipv + '.iter()', '&' + ipv, ipv + '.into_iter()'):
+                r12.undecided('%s:search-order' % PP, pp.where(lp.get('l')), 'the loop iterates `%s`' % it)
+            # enclosing condition(s): literal path first
+            conds = []
+
+            def enclosing(node, acc):
+                if node is lp:
+                    conds.extend(acc)
+                    return True
+                if isinstance(node, dict):
+                    if node.get('k') == 'if':
+                        def conj(c_):
+                            if c_.get('k') == 'binary' and c_['op'] == '&&':
+                                return conj(c_['l_']) + conj(c_['r'])
+                            return [sq(c_)]
+                        if enclosing(node['t'], acc + conj(node['c'])):
+                            return True
+                        if 'e' in node and enclosing(node['e'], acc + ['!(' + sq(node['c']) + ')']):
+                            return True
+                        return False
+                    for v_ in node.values():
+                        if isinstance(v_, (dict, list)) and enclosing(v_, acc):
+                            return True
+                elif isinstance(node, list):
+                    for v_ in node:
+                        if enclosing(v_, acc):
+                            return True
+                return False
+            enclosing(host_body, [])
+            cj = set(conds)
+            r12.inst('precondition', {'conditions': sorted(cj)})
+            need = {'%s.is_relative()' % pathv, '!%s.exists()' % pathv}
+            if need <= cj:
+                pass
+            elif cj and cj <= need | {x_ for x_ in cj if 'is_relative' in x_ or 'exists' in x_ or 'is_absolute' in x_}:
+                miss = sorted(need - cj)
+                if '!%s.is_absolute()' % pathv in cj:
+                    miss = [m_ for m_ in miss if 'is_relative' not in m_]
+                if miss:
+                    r12.fail('%s:search-precondition' % PP, pp.where(lp.get('l')),
+                             'the include paths are consulted only for a relative path that does not exist as given; the search runs under %s (missing: %s)' % (sorted(cj), miss))
+            elif not cj:
+                r12.fail('%s:search-precondition' % PP, pp.where(lp.get('l')), 'the include paths are searched unconditionally: the path as written must be tried first')
+            else:
+                r12.undecided('%s:search-precondition' % PP, pp.where(lp.get('l')), 'search precondition %s not recognised' % sorted(cj))
+            # first hit wins: `if CAND.exists()` whose then-branch leaves the loop, CAND = V.join(path)
             v = sx.pat_idents(lp['pat'])[0]
-            bs = lp['body']['stmts']
-            ok = False
-            if len(bs) == 2 and bs[0]['k'] == 'let' and bs[1]['k'] == 'expr' and bs[1]['e'].get('k') == 'if':
-                cand = sx.pat_idents(bs[0]['pat'])[0]
-                j = sq(bs[0]['init'])
-                iff = bs[1]['e']
-                then = [sq(x) for x in iff['t']['stmts']]
-                ok = j in ('%s.as_ref().join(&path)' % v, '%s.join(&path)' % v) and sq(iff['c']) == '%s.exists()' % cand \
-                    and then in (['path=%s;' % cand, 'break;'], ['path=%s;' % cand, 'break']) and 'e' not in iff
-            r12.inst('first-hit', {'body': [sq(x) for x in bs]})
-            if not ok:
-                r12.fail('%s:search-first-hit' % PP, pp.where(lp.get('l')),
-                         'search loop must join the include path with the literal path, and on the first existing candidate adopt it and '
-                         'leave the loop; found %s' % [sq(x) for x in bs])
+            exists_ifs = [n for n in sx.walk(lp['body']) if n.get('k') == 'if' and sq(n['c']).endswith('.exists()') and not sq(n['c']).startswith('!')]
+            r12.inst('first-hit', {'body': [sq(x)[:60] for x in lp['body']['stmts']]})
+            if len(exists_ifs) != 1:
+                r12.undecided('%s:search-first-hit' % PP, pp.where(lp.get('l')), 'no single `if <candidate>.exists()` in the search loop')
+            else:
+                iff = exists_ifs[0]
+                cand = sq(iff['c'])[:-len('.exists()')]
+                leaves = any(z.get('k') in ('break', 'return') for z in sx.walk(iff['t']))
+                cl = [n for n in sx.walk(lp['body']) if n.get('k') == 'let' and n.get('pat', {}).get('k') == 'ident' and n['pat']['n'] == cand and 'init' in n]
+                join_ok = None
+                if cl:
+                    j = sq(cl[-1]['init'])
+                    join_ok = j in ('%s.as_ref().join(&%s)' % (v, pathv), '%s.join(&%s)' % (v, pathv), '%s.as_ref().join(%s)' % (v, pathv), '%s.join(%s)' % (v, pathv))
+                    if not join_ok and '.join(' in j and (v not in j or pathv not in j):
+                        join_ok = False
+                    elif not join_ok:
+                        join_ok = None
+                if not leaves:
+                    r12.fail('%s:search-first-hit' % PP, pp.where(iff.get('l')),
+                             'the search goes on after an existing candidate was found (no break / return in `if %s.exists()`): the LAST include path that holds the file wins, not the first' % cand)
+                elif join_ok is False:
+                    r12.fail('%s:search-candidate' % PP, pp.where(iff.get('l')), 'the candidate `%s` is not the include path joined with the literal path' % (sq(cl[-1]['init'])[:50]))
+                elif join_ok is None:
+                    r12.undecided('%s:search-candidate' % PP, pp.where(iff.get('l')), 'how the candidate `%s` is built is not recognised' % cand)
         # the path handed to the nested run is the searched one
         calls = [n for n in sx.walk(arm.body) if sx.is_call(n) and n['f']['p'] in opens]
         for cll in calls:
             a0 = sq(cll['args'][0])
             r12.inst('path-used', {'callee': cll['f']['p'], 'path_argument': a0})
-            if a0 != 'path':
+            if a0 not in ('path', '&path', 'path.as_path()'):
                 r12.fail('%s:searched-path-not-used' % PP, pp.where(cll.get('l')), 'the file opened must be the path resulting from the search; found `%s`' % a0)
 
     # ---------- P2   (semantic, tri-state)
